@@ -1552,6 +1552,51 @@ Section C02.
         + intros st' Est' K'. rewrite Est in Est'. inversion Est'; subst st'. congruence.
     Qed.
 
+    (* ---------------------------------------------------------------- 1. weak invariant + stable = legal *)
+    Lemma active_children_amo cfg n st :
+      wk cfg -> state_for sc n = Some st -> s_kind st = KCompound ->
+      active_children cfg n = [] \/ exists c, active_children cfg n = [c].
+    Proof.
+      intros (_ & _ & _ & Hamo) Est K. unfold active_children.
+      pose proof (NoDup_filter (fun c => mem c cfg) (Hkids_nodup n)) as Hnd.
+      destruct (filter (fun c => mem c cfg) (kids n)) as [|c1 [|c2 l]] eqn:F;
+        [left; reflexivity|right; exists c1; reflexivity|].
+      exfalso.
+      assert (In c1 (filter (fun c => mem c cfg) (kids n))) as H1 by (rewrite F; left; reflexivity).
+      assert (In c2 (filter (fun c => mem c cfg) (kids n))) as H2 by (rewrite F; right; left; reflexivity).
+      apply filter_In in H1. apply filter_In in H2. destruct H1 as [K1 M1], H2 as [K2 M2].
+      apply mem_In in M1. apply mem_In in M2. apply Hpc in K1. apply Hpc in K2.
+      assert (c1 = c2) as E by (exact (Hamo n st c1 c2 Est K K1 K2 M1 M2)).
+      inversion Hnd as [|? ? Hni _]; subst. apply Hni. left; reflexivity.
+    Qed.
+
+    Theorem wk_stable_legal cfg : wk cfg -> In r cfg -> stable cfg -> legal cfg.
+    Proof.
+      intros Hwk Hr Hst. pose proof Hwk as (Hnd & Hex & Hcl & Hamo).
+      split; [exact Hnd|]. split; [exists r; split; [exact Hroot|exact Hr]|].
+      intros n Hn. destruct (state_for sc n) as [st|] eqn:Est; [|exfalso; exact (Hex n Hn Est)].
+      exists st. split; [exact Est|].
+      split; [intros p Hp; eapply Hcl; eauto|].
+      split.
+      { intros Hp. rewrite Hroot. f_equal. symmetry. apply Hone_root; [rewrite Est; discriminate|exact Hp]. }
+      split.
+      { intros K. destruct (active_children_amo cfg n st Hwk Est K) as [E|[c E]].
+        - destruct (truthy (s_initial st)) as [i0|] eqn:Ei; [|right; split; [exact E|reflexivity]].
+          exfalso.
+          destruct (C02_compound_has_child cfg n st i0 (fun c p => proj1 (Hpc c p)) Hcl Hst Hn Est K Ei)
+            as (c & Hc & Hcc).
+          assert (In c (active_children cfg n)) as Hin.
+          { apply filter_In. split; [exact Hc|apply mem_In; exact Hcc]. }
+          rewrite E in Hin. destruct Hin.
+        - left. exists c. exact E. }
+      split.
+      { intros K c Hc. eapply C02_orthogonal_complete; eauto. }
+      assert (kids n = [] -> is_history (s_kind st) = false /\ (s_kind st = KFinal -> par n <> root sc)) as H.
+      { intros Hk. eapply C02_no_history_active; eauto. }
+      destruct (s_kind st) eqn:K; simpl; try (split; [reflexivity|discriminate]);
+        apply H; apply (no_kids_of_kind n st Est); rewrite K; discriminate.
+    Qed.
+
   End WF.
 
 End C02.
